@@ -433,6 +433,10 @@ func (g *gen) trig(withExt bool) trigG {
 		if g.r.Chance(1, 10) {
 			e.Index = ^uint32(0)
 		}
+		if g.r.Chance(1, 12) {
+			// log data that is present but all zero: present is what the rules ask about, not non-zero
+			e = &extG{Tx: x32([32]byte{}), BHash: x32([32]byte{})}
+		}
 		t.Ext = e
 	}
 	return t
